@@ -42,6 +42,17 @@ const prelude = `(set-logic ALL)
 (assert (forall ((s Str) (i Int)) (! (and (<= 0 (sat s i)) (<= (sat s i) 255)) :pattern ((sat s i)))))
 `
 
+// memPrelude: member(s, x) over slices of strings / integers, a defined predicate with a witness function.
+const memPrelude = `(declare-fun mem_Str ((Array Int Str) Int Int Str) Bool)
+(declare-fun midx_Str ((Array Int Str) Int Int Str) Int)
+(assert (forall ((a (Array Int Str)) (o Int) (n Int) (x Str)) (! (=> (mem_Str a o n x) (and (<= o (midx_Str a o n x)) (< (midx_Str a o n x) (+ o n)) (= (select a (midx_Str a o n x)) x))) :pattern ((mem_Str a o n x)))))
+(assert (forall ((a (Array Int Str)) (o Int) (n Int) (x Str) (j Int)) (! (=> (and (<= o j) (< j (+ o n))) (mem_Str a o n (select a j))) :pattern ((mem_Str a o n x) (select a j)))))
+(declare-fun mem_Int ((Array Int Int) Int Int Int) Bool)
+(declare-fun midx_Int ((Array Int Int) Int Int Int) Int)
+(assert (forall ((a (Array Int Int)) (o Int) (n Int) (x Int)) (! (=> (mem_Int a o n x) (and (<= o (midx_Int a o n x)) (< (midx_Int a o n x) (+ o n)) (= (select a (midx_Int a o n x)) x))) :pattern ((mem_Int a o n x)))))
+(assert (forall ((a (Array Int Int)) (o Int) (n Int) (x Int) (j Int)) (! (=> (and (<= o j) (< j (+ o n))) (mem_Int a o n (select a j))) :pattern ((mem_Int a o n x) (select a j)))))
+`
+
 // smtText renders the query for one obligation.
 func (o *Obligation) smtText() string {
 	c := o.ctx
@@ -64,15 +75,25 @@ func (o *Obligation) smtText() string {
 		}
 		sb.WriteString("))\n")
 	}
+	var body, mem strings.Builder
 	for i := 0; i < o.NFacts && i < len(c.facts); i++ {
-		sb.WriteString("(assert ")
-		sb.WriteString(c.facts[i].String())
-		sb.WriteString(")\n")
+		w := &body
+		if c.memFacts[i] {
+			w = &mem
+		}
+		w.WriteString("(assert ")
+		w.WriteString(c.facts[i].String())
+		w.WriteString(")\n")
 	}
-	sb.WriteString("(assert " + o.Guard.String() + ")\n")
+	body.WriteString("(assert " + o.Guard.String() + ")\n")
 	if !o.Cover {
-		sb.WriteString("(assert (not " + o.Goal.String() + "))\n")
+		body.WriteString("(assert (not " + o.Goal.String() + "))\n")
 	}
+	if strings.Contains(body.String(), "mem_") {
+		sb.WriteString(memPrelude)
+		sb.WriteString(mem.String())
+	}
+	sb.WriteString(body.String())
 	sb.WriteString("(check-sat)\n")
 	return sb.String()
 }
